@@ -506,10 +506,69 @@ def plan(ctx):
     return groups
 
 
-EXPLANATION = ''
-TRUSTED = []
-ASSUMPTIONS = []
-DROPS = ''
-NOT_DECIDED = []
+EXPLANATION = ('parse_int<RetT> (8 integer types, the IntFormat symbolic) and parse_float<float|double> are loop-free: each contract is enforced with '
+               'goto-instrument --dfcc over an abstract scanner (strtoull/strtod reduced to what ISO C says they report: consumed length, sign, '
+               'magnitude, overflow) and bit-blasted over all 2^64 magnitudes x sign x overflow x "what follows the numeral", so "accepts iff the '
+               'mathematical value fits" is decided at every boundary of every type. The per-token body of Arguments::parse (flag loop under a loop '
+               'contract), assert_none_unused (three loops under loop contracts), the exception-lowered getters (try/catch -> if-chain), get_multi '
+               '(loop contract) and split_args on quote-free command lines (loop contract with a lock-step ghost specification) are proved for '
+               'tokens / vectors / command lines of any length (< 2^16 bytes / elements); universals are ghost indices.')
+TRUSTED = [
+    'stubs/C17_strto.h: the abstract model of strtoull / strtoll / strtod / errno (ISO C 7.22.1.3-4: value negated in the return type, ULLONG_MAX + '
+    'ERANGE when not representable, 0 and endptr == nptr when no conversion; endptr never beyond the first NUL) and "a complete numeral contains a '
+    '\'-\' iff it is negative"',
+    'stubs/C17_args.h: the container models -- positional/named as an append-only event log on the construction side (named[k].emplace_back(v) = append '
+    'v to the values of k), vectors as {data,size} and the unordered_map as an abstract collection with one distinguished entry on the reading side '
+    '(at(k) finds the entry or throws out_of_range; iteration visits every entry once); std::string::substr / find semantics; std::optional as {has_value, value}',
+    'props/C17.py LowerExc: the try/catch lowering of the getters (raise inside the protected block -> goto handler chain; VERIF_CATCHES subtype table of '
+    'stubs/C17_args.h transcribed from the C++ standard; a raise inside a handler leaves the function)',
+    'contracts/C17_parse.h, C17_args.h, C17_getters.h, C17_split.h: the specification macros (mathematical range predicate, token shapes, word starts)',
+    'stubs/vstr.h (std::string as {data,size,cap} with the terminator at data[size])',
+]
+ASSUMPTIONS = [
+    'token / text / command-line lengths below 2^16 bytes, vectors below 2^16 elements (object-size limit of the model)',
+    'allocation succeeds (bad_alloc / length_error from std::string and std::vector growth are not modelled)',
+    'the "C" locale for isblank (space and tab)',
+    'single-value typed getters: the option was given exactly once (or not at all); see NOT_DECIDED for repeated options',
+]
+DROPS = ('template<RetT, IdentT> instantiated textually (RetT via -D; IdentT = const std::string& / size_t as vstr* / size_t); exception message arguments '
+         '(exc_prefix(id) + "...") dropped with the throw lowering; std::string -> vstr, references -> pointers; std::move(arg) -> the whole-token slice; '
+         'substr results -> slices of the token (no copy); range-for over a container -> index loop over the model; returned std::vector -> out-parameter '
+         'with one ghost element; the function-local static of get_values_multi hoisted to a global; static member empty_string -> global; '
+         'is_unsigned_v / mask_for_type / bits_for_type variable templates -> function-like macros with the expression text of Encoding.hh; '
+         'enum class IntFormat -> enum with prefixed enumerators')
+NOT_DECIDED = [
+    'what strtoull / strtod accept as a numeral or literal (leading white space, "+", "0x", "inf"/"nan", hex floats, locale) and which double a literal '
+    'denotes, including the double rounding of parse_float<float> through strtod: libc, assumed = ISO C',
+    '64-bit target types on numerals of magnitude 2^63 or more: the statement only promises magnitudes below 2^63 (observed after C17-1: int64_t rejects '
+    'them, uint64_t accepts magnitudes up to 2^64-1 and wraps negative numerals)',
+    'the quoting dialect of split_args (what quotes, backslashes and NUL bytes mean): only command lines without them are decided. Observed, not judged: '
+    'an empty quoted string yields no token (a shell yields an empty argument), a backslash also escapes inside single quotes, NUL bytes are dropped',
+    'the outer loop of Arguments::parse (range-for: every token once, in order -- C++ semantics) and the plumbing of the four constructors '
+    '(argv copy loop; split_args then parse)',
+    'std::unordered_map itself (hashing, key equality, find-or-insert of operator[], iteration order): trusted model',
+    'single-value getters on an option that was given more than once: get<T>(name) then behaves as if the option were absent (its own '
+    'out_of_range("multiple values") is caught by its own handler), so get<bool>("v") is false after "-vv" -- the statement does not say what should happen',
+    'which used flags are set when a getter leaves with invalid_argument (the statement only speaks of arguments that were read)',
+    'exception message texts; IntFormat values outside the enum (logic_error); conversion of a negative int position to size_t',
+    'used-flag bookkeeping across whole call sequences: decided per getter (marks exactly what it delivers, frame by ghost index / assigns clause, any '
+    'number of arguments) and per assert_none_unused (throws iff some flag is false); their composition is checked only as a bounded lemma (<= 2 positional)',
+]
 CLAIMED = True
-MANIFEST = dict(category='proof', text='', note='', technique='')
+MANIFEST = dict(
+    category='proof',
+    text=('Arguments::parse_int<RetT> for the eight integer types (format symbolic, so all four IntFormat values) and parse_float<float|double> are put '
+          'under function contracts over an abstract strtoull/strtod (consumed length, sign, magnitude, overflow as ghosts) and discharged by cbmc over the '
+          'whole domain: returns iff the text is one complete numeral whose mathematical value fits RetT (64-bit: every magnitude < 2^63), else '
+          'invalid_argument; result == the value; scanned once in the base the format names. The per-token body of Arguments::parse is proved against the '
+          'three token shapes (exactly the events of its shape, slices exact, order and earlier events preserved, used = false), assert_none_unused against '
+          '"throws iff some used flag is false" (witness), the exception-lowered getters get<string>/get<bool>/get<int>(id[,default],format)/get<float>(id,optional) '
+          'for name and position identifiers (present: parse outcome and marked read; absent: out_of_range or the supplied default), get_multi, and split_args '
+          'on quote-free command lines (tokens = maximal non-blank runs) with loop contracts for inputs of any length.'),
+    note=('Trusted: cbmc/goto-instrument, the answering solver, the extractor, the models of strtoull/strtod/errno (stubs/C17_strto.h) and of the two containers '
+          '(stubs/C17_args.h), the try/catch lowering (props/C17.py LowerExc). Confirmed defects (native replay): numerals of magnitude >= 2^63 are accepted by the '
+          '8/16/32-bit getters with a wrapped value (get<int8_t>("18446744073709551615") == -1), and texts with an embedded NUL are accepted ("5\\0abc" -> 5); '
+          'fixes/C17-1, C17-2. Not decided: what libc accepts as a numeral, 64-bit targets beyond 2^63, the quoting dialect of split_args, repeated options with '
+          'single-value getters, unordered_map internals, the outer parse loop.'),
+    technique='function and loop contracts (requires/ensures/assigns, invariants/decreases) enforced with goto-instrument --dfcc on mechanically extracted, exception-lowered C text; discharged by cbmc (SAT/SMT portfolio); one bounded lemma over the contracts',
+)
